@@ -89,6 +89,7 @@ struct QsEngine : Engine {
 				p.ops.push_back(q);
 			}
 		}
+		if (p.cfg == MT_TICKET && rng.chance(1, 3)) p.knobs["age"] = (int64_t)(0xFFFFFFFFu - (uint32_t)rng.below(6)); // aged domain mutex
 		pick_strategy(rng, p, true);
 	}
 
@@ -301,4 +302,5 @@ struct QsEngine : Engine {
 };
 
 static void cb_trampoline(void *node) { G->on_callback(node); }
+extern "C" uint32_t simh_lock_age() { return (uint32_t)plan().knob("age", 0); }
 Engine *sim::make_engine() { return new QsEngine(); }
